@@ -1,0 +1,7 @@
+//go:build !verif
+
+package tasklane
+
+// verifPoint marks a protocol step for the verification harness; without the
+// "verif" build tag it is an empty function the compiler inlines away.
+func verifPoint(string, int, Task) {}
